@@ -124,6 +124,17 @@ def ty_src(t, defs):
         else:
             pat = f'_dw.Pattern({t["fmt"]!r})'
         return f'{q("Annotated")}[{inner}, {pat}]'
+    if k == 'alias':
+        # PEP 695 alias: `type <name> = <inner>` (lazily evaluated, so it may precede the classes it mentions)
+        if t['name'] not in defs:
+            defs[t['name']] = None
+            inner = ty_src(a[0], defs)
+            del defs[t['name']]
+            defs[t['name']] = f'type {t["name"]} = {inner}\n'
+        return t['name']
+    if k == 'annotated':
+        # Annotated[<inner>, <metadata the library has no use for>]
+        return f'{q("Annotated")}[{ty_src(a[0], defs)}, {t.get("note", "note")!r}]'
     if k == 'sub':
         # a user-defined subclass of a stdlib leaf type (class SubN(date): pass)
         if t['name'] not in defs:
@@ -148,6 +159,8 @@ def ty_src(t, defs):
             lines = []
             for n, ft, req in t['fields']:
                 inner = ty_src(ft, defs)
+                if req and t.get('req_spelled'):
+                    inner = f'{"_te.Required" if SAFE else "Required"}[{inner}]'
                 lines.append(f'    {n}: {inner}' if req else f'    {n}: {q("NotRequired")}[{inner}]')
             del defs[t['name']]
             pn = t.get('pyname') or t['name']
@@ -435,8 +448,21 @@ def enc_info(info):
                        for f in info['fields']]}
 
 
+def plain_ty(t):
+    """the type without its transparent spellings (PEP 695 aliases, Annotated[..] with foreign metadata, Required[..])"""
+    if isinstance(t, list):
+        return [plain_ty(x) for x in t]
+    if not isinstance(t, dict):
+        return t
+    if t.get('k') in ('alias', 'annotated'):
+        return plain_ty(t['a'][0])
+    return {k_: plain_ty(v) for k_, v in t.items() if k_ != 'req_spelled'}
+
+
 def enc_ty(t):
     k = t['k']
+    if k in ('alias', 'annotated'):
+        return enc_ty(t['a'][0])
     if k == 'cls':
         return {'k': 'cls', 'info': enc_info(t['info']), 'ftys': [[n, enc_ty(ft)] for n, ft in t['ftys']
                                                                    if not _is_catch_all(t['info'], n)]
